@@ -25,46 +25,51 @@ type fresh struct {
 	name  string
 	nodes func() []*doc.Node
 	adds  []string // entry keys expected to appear
+	needs string   // a name the document must already declare (the fresh declaration refers to it)
 }
 
 func freshDecls() []fresh {
 	return []fresh{
-		{"type-jsight", func() []*doc.Node { return []*doc.Node{doc.N("TYPE", "@fresh1").WithBody("{\n  \"f\": 1\n}")} }, []string{"userTypes/@fresh1"}},
-		{"type-regex", func() []*doc.Node { return []*doc.Node{doc.N("TYPE", "@fresh2", "regex").WithBody("/z/")} }, []string{"userTypes/@fresh2"}},
-		{"type-any", func() []*doc.Node { return []*doc.Node{doc.N("TYPE", "@fresh3", "any")} }, []string{"userTypes/@fresh3"}},
+		{"type-jsight", func() []*doc.Node { return []*doc.Node{doc.N("TYPE", "@fresh1").WithBody("{\n  \"f\": 1\n}")} }, []string{"userTypes/@fresh1"}, ""},
+		{"type-regex", func() []*doc.Node { return []*doc.Node{doc.N("TYPE", "@fresh2", "regex").WithBody("/z/")} }, []string{"userTypes/@fresh2"}, ""},
+		{"type-any", func() []*doc.Node { return []*doc.Node{doc.N("TYPE", "@fresh3", "any")} }, []string{"userTypes/@fresh3"}, ""},
 		{"type-scalar", func() []*doc.Node {
 			return []*doc.Node{doc.N("TYPE", "@fresh4").WithAnn("n").WithBody("12 // {min: 1}")}
-		}, []string{"userTypes/@fresh4"}},
-		{"enum", func() []*doc.Node { return []*doc.Node{doc.N("ENUM", "@freshE").WithBody("[1, 2]")} }, []string{"userEnums/@freshE"}},
+		}, []string{"userTypes/@fresh4"}, ""},
+		{"enum", func() []*doc.Node { return []*doc.Node{doc.N("ENUM", "@freshE").WithBody("[1, 2]")} }, []string{"userEnums/@freshE"}, ""},
 		{"server", func() []*doc.Node {
 			return []*doc.Node{doc.N("SERVER", "@freshS").WithParen().WithKids(doc.N("BaseUrl", "\"https://fresh/\""))}
-		}, []string{"servers/@freshS"}},
-		{"tag", func() []*doc.Node { return []*doc.Node{doc.N("TAG", "@freshT").WithAnn("Fresh")} }, []string{"tags/@freshT"}},
+		}, []string{"servers/@freshS"}, ""},
+		{"tag", func() []*doc.Node { return []*doc.Node{doc.N("TAG", "@freshT").WithAnn("Fresh")} }, []string{"tags/@freshT"}, ""},
 		{"macro", func() []*doc.Node {
 			return []*doc.Node{doc.N("MACRO", "@freshM").WithParen().WithKids(doc.N("200", "any"))}
-		}, nil},
+		}, nil, ""},
 		{"method", func() []*doc.Node {
 			return []*doc.Node{doc.N("GET", "/freshpath/x").WithParen().WithKids(doc.N("200", "any"))}
-		}, []string{"interactions/http GET /freshpath/x", "tags/@freshpath"}},
+		}, []string{"interactions/http GET /freshpath/x", "tags/@freshpath"}, ""},
 		// a method on an unrelated path whose parameters have the names other paths use too
 		{"method-with-path-parameters", func() []*doc.Node {
 			return []*doc.Node{doc.N("GET", "/freshp/{id}/{a}").WithParen().WithKids(
 				doc.N("Path").WithBody("{\n  \"id\": 77, // fresh id\n  \"a\": \"fresh\"\n}"), doc.N("200", "any"))}
-		}, []string{"interactions/http GET /freshp/{id}/{a}", "tags/@freshp"}},
+		}, []string{"interactions/http GET /freshp/{id}/{a}", "tags/@freshp"}, ""},
 		{"method-with-path-parameter-id", func() []*doc.Node {
 			return []*doc.Node{doc.N("GET", "/freshq/{id}").WithParen().WithKids(
 				doc.N("Path").WithBody("{\n  \"id\": 78 // another fresh id\n}"), doc.N("200", "any"))}
-		}, []string{"interactions/http GET /freshq/{id}", "tags/@freshq"}},
+		}, []string{"interactions/http GET /freshq/{id}", "tags/@freshq"}, ""},
 		{"method-with-path-parameters-a-b", func() []*doc.Node {
 			return []*doc.Node{doc.N("GET", "/freshr/{a}/{b}").WithParen().WithKids(
 				doc.N("Path").WithBody("{\n  \"a\": \"fa\",\n  \"b\": \"fb\"\n}"), doc.N("200", "any"))}
-		}, []string{"interactions/http GET /freshr/{a}/{b}", "tags/@freshr"}},
+		}, []string{"interactions/http GET /freshr/{a}/{b}", "tags/@freshr"}, ""},
+		// a fresh method may USE what the document declares: its Path is a reference to an existing type
+		{name: "method-with-path-from-existing-type", nodes: func() []*doc.Node {
+			return []*doc.Node{doc.N("GET", "/freshopt/{oid}").WithParen().WithKids(doc.N("Path").WithBody("@opt"), doc.N("200", "@opt"))}
+		}, adds: []string{"interactions/http GET /freshopt/{oid}", "tags/@freshopt"}, needs: "@opt"},
 		{"url", func() []*doc.Node {
 			return []*doc.Node{doc.N("URL", "/freshurl").WithParen().WithKids(doc.N("POST").WithKids(doc.N("Request", "any"), doc.N("201", "empty")))}
-		}, []string{"interactions/http POST /freshurl", "tags/@freshurl"}},
+		}, []string{"interactions/http POST /freshurl", "tags/@freshurl"}, ""},
 		{"rpc", func() []*doc.Node {
 			return []*doc.Node{doc.N("URL", "/freshrpc").WithParen().WithKids(doc.N("Protocol", "json-rpc-2.0"), doc.N("Method", "m1"))}
-		}, []string{"interactions/json-rpc-2.0 m1 /freshrpc", "tags/@freshrpc"}},
+		}, []string{"interactions/json-rpc-2.0 m1 /freshrpc", "tags/@freshrpc"}, ""},
 	}
 }
 
@@ -181,8 +186,21 @@ func runC20(c *fw.Ctx) {
 					map[string]interface{}{"doc": name, "base_text": key, "edited_text": text})
 			}
 		}
+		declares := func(name string) bool {
+			for _, b := range blocks {
+				for _, d := range b.Defines {
+					if d == name {
+						return true
+					}
+				}
+			}
+			return false
+		}
 		// insertions (self-delimiting rendering)
 		for _, f := range fr {
+			if f.needs != "" && !declares(f.needs) {
+				continue
+			}
 			for pos := 1; pos <= len(nodes); pos++ {
 				if !c.Next() {
 					continue
@@ -210,6 +228,9 @@ func runC20(c *fw.Ctx) {
 		var plainE map[string]string
 		havePlain := false
 		for _, f := range fr {
+			if f.needs != "" && !declares(f.needs) {
+				continue
+			}
 			for pos := 1; pos <= len(plain); pos++ {
 				for _, sep := range []string{" ", "\t"} {
 					if !c.Next() {
